@@ -1,7 +1,7 @@
 import PhyModel.Proofs.StoreCache_Vec
 /-! C06, locating layer: `findSub`, `setRec`, `parentIn` against the index list, which equations a
 payload replacement at node `i` can break, and `_update_path_to_root` as a consumer of `ROKx`. -/
-namespace PhyModel.Store
+namespace PhyModel.Store.C06
 open PhyModel
 
 /-- the part of C07's well-formedness that the cache proofs use: graph indices are unique and the
@@ -23,7 +23,7 @@ theorem lookup_mem {κ ν} [BEq κ] [LawfulBEq κ] :
       rw [this] at h
       exact List.mem_cons_of_mem _ (lookup_mem m k v h)
 
-theorem WF.toWFc {s : Store} (h : WF s) : WFc s where
+theorem _root_.PhyModel.Store.WF.toWFc {s : Store} (h : WF s) : WFc s where
   idxs_nodup := h.idxs_nodup
   lookup_idx := by
     intro n hn j hj
@@ -283,4 +283,4 @@ theorem cacheOK_updatePath_some (dt : Data) (s s' : Store) (name : Int)
   obtain ⟨i, hi, _, rfl⟩ := updatePath_some dt s s' name h
   exact ⟨cacheOKsf_updPath dt i s.forest hnd hp (hr i hi), fun _ => rfl⟩
 
-end PhyModel.Store
+end PhyModel.Store.C06
